@@ -142,8 +142,12 @@ func vfH_c08_long() {
 	for i := 0; i < vfLen2; i++ {
 		in = append(in, 'x')
 	}
-	if vfLen2 > 0 {
-		in[len(in)-1] = c
+	if vfLen2 > 0 { // the symbolic byte is the last byte of the value when the value is complete, else the last byte available
+		last := vfLen2
+		if last > vfLen {
+			last = vfLen
+		}
+		in[len(s.b)+last-1] = c
 	}
 	src, _ := source(in)
 	r := p.NewReader(src)
